@@ -61,7 +61,7 @@ pub fn other_backends(tier: Tier, all: &[Selected], excluded: &std::collections:
                 None => continue,
             };
             let m = Model::new(&inl);
-            let vg = ValueGen { m: &m, budget: if thorough { Budget::thorough() } else { Budget { max_values: 60, pairs: true, nested_alts: 3, max_array_len: 20 } } };
+            let vg = ValueGen { m: &m, budget: if thorough { Budget { max_values: 400, pairs: true, nested_alts: 4, max_array_len: 300 } } else { Budget { max_values: 60, pairs: true, nested_alts: 3, max_array_len: 20 } } };
             let mut tops = vec![];
             for decl in inl.decls.iter().filter(|d| d.is_pkt_or_struct() && crate::front::encodable(&inl, &d.id)) {
                 let values: Vec<Val> = vg.values(&decl.id).ok.into_iter().filter(|v| m.encode(&decl.id, v).is_ok() && !crate::cxxgen::empty_elementsize_array(&m, &decl.id, v)).collect();
